@@ -19,3 +19,6 @@ claim('C12', 'model_checking', 'explicit-state BFS over scalar-token states x 25
 claim('C13', 'model_checking', 'explicit-state BFS over whitespace-prefix and literal-machine states x 256 bytes; complete 256-entry table check; all Read families on every node',
       'Every byte value after every whitespace-prefix state and in every state of the literal machines, against a table typed in from RFC 8259; type exclusivity of all Read families on every scalar node.',
       'Whitespace run length saturates at 3 in the key (pumping covers longer runs).', '5 C13')
+claim('C04', 'exploration', 'explicit-state BFS over the number-token automaton x 256 bytes (syntax/offset) + complete enumeration of stated finite literal families + audit of every table word against math/big; oracle exact rational rounding and strconv.ParseFloat',
+      'The scanner is decided per (state, byte); the value function on complete finite families: all <=k-digit literals x all exponents, all binades x boundary mantissas x halfway variants (incl. >800 digits), thresholds, all 696 table rows x mantissa sweeps; every table constant is recomputed.',
+      'The set of number literals is infinite: correct rounding outside the enumerated families is not decided (needs a proof). strconv deviates from exact rounding for >800-digit integer parts; exact rounding is the deciding oracle.', '5 C04')
